@@ -1,5 +1,6 @@
 #!/bin/bash
-# convenience: run every thorough tier in sequence, log to target/thorough.log
+# convenience: run every thorough tier in sequence, log to target/thorough.log; the evidence each thorough run
+# wrote is kept as evidence/thorough/<id>.json (evidence/<id>.json is rewritten by whichever tier ran last)
 cd "$(dirname "$0")/.."
 mkdir -p target
 : > target/thorough.log
@@ -7,6 +8,7 @@ for c in C01 C02 C04 C05 C06 C07 C08 C09 C10 C11 C12 C13 C14 C15 C16 C17 C18 C19
   s=$(date +%s)
   ./check $c thorough > target/thorough-$c.out 2>&1
   rc=$?
+  mkdir -p evidence/thorough && cp evidence/$c.json evidence/thorough/$c.json
   echo "$c rc=$rc $(( $(date +%s) - s ))s $(tail -1 target/thorough-$c.out)" >> target/thorough.log
 done
 echo DONE >> target/thorough.log
